@@ -199,11 +199,15 @@ impl DBM {
             }
         }
 
+        #[cfg(feature = "verif")]
+        teos_common::verif::crashpoint("batch_remove_users:before_commit");
         match tx.commit() {
             Ok(_) => log::debug!("Users successfully deleted"),
             Err(e) => log::error!("Couldn't delete users. Error: {e:?}"),
         }
 
+        #[cfg(feature = "verif")]
+        teos_common::verif::crashpoint("batch_remove_users:after_commit");
         (users.len() as f64 / limit as f64).ceil() as usize
     }
 
@@ -445,11 +449,15 @@ impl DBM {
             };
         }
 
+        #[cfg(feature = "verif")]
+        teos_common::verif::crashpoint("batch_remove_appointments:before_commit");
         match tx.commit() {
             Ok(_) => log::debug!("Appointments successfully deleted"),
             Err(e) => log::error!("Couldn't delete appointments. Error: {e:?}"),
         }
 
+        #[cfg(feature = "verif")]
+        teos_common::verif::crashpoint("batch_remove_appointments:after_commit");
         (appointments.len() as f64 / limit as f64).ceil() as usize
     }
 
